@@ -80,3 +80,126 @@ def check_primitive_pairs(repo, rep, pm):
             if back:
                 rep.check(x in back, "primitive-pairs", fq, f"{y}: from -> self.{x}, to <- self.{sorted(back)}", f"parameter {y} is stored in self.{x} but restored from self.{sorted(back)}: cross-wired", mod=mod, node=tp)
     rep.floor("from/to_primitive pairs", n, 15)
+
+
+# ---- one object per element ---------------------------------------------------------------------
+def check_fresh_per_iteration(repo, rep, modules=("pdu", "pdu_items", "pdu_primitives", "dimse_messages", "dimse", "presentation", "acse")):
+    """An object that is appended to a list inside a loop must be created inside that loop: a
+    variable bound only outside the loop, whose attributes are assigned inside it and which is
+    appended inside it, makes every list element the same (last written) object."""
+    rep.rule("fresh-per-element", "an object appended inside a loop is created inside that loop (no aliasing of one object across all elements)")
+    n_sites = 0
+    for mname in modules:
+        m = repo.mod(mname)
+        for fn in [f for f in ast.walk(m.tree) if isinstance(f, ast.FunctionDef)]:
+            for lp in [l for l in walk_no_nested(fn) if isinstance(l, (ast.For, ast.While))]:
+                body_nodes = [x for s in lp.body for x in ast.walk(s)]
+                appends = [c for c in body_nodes if isinstance(c, ast.Call) and isinstance(c.func, ast.Attribute) and c.func.attr in ("append", "add", "insert") and c.args and isinstance(c.args[-1], ast.Name)]
+                for c in appends:
+                    v = c.args[-1].id
+                    n_sites += 1
+                    bound_inside = any(isinstance(s, (ast.Assign, ast.AnnAssign)) and any(isinstance(t, ast.Name) and t.id == v for t in (s.targets if isinstance(s, ast.Assign) else [s.target])) for s in body_nodes if isinstance(s, (ast.Assign, ast.AnnAssign)))
+                    is_loop_var = any(isinstance(n_, ast.Name) and n_.id == v for n_ in ast.walk(lp.target)) if isinstance(lp, ast.For) else False
+                    inner_for = any(isinstance(f2, (ast.For, ast.comprehension)) and any(isinstance(n_, ast.Name) and n_.id == v for n_ in ast.walk(f2.target)) for f2 in body_nodes if isinstance(f2, (ast.For, ast.comprehension)))
+                    with_as = any(isinstance(w, ast.withitem) and w.optional_vars is not None and norm(w.optional_vars) == v for w in body_nodes if isinstance(w, ast.withitem))
+                    if bound_inside or is_loop_var or inner_for or with_as:
+                        continue
+                    # append followed by break / return in the same block: at most one append per run of this loop
+                    from ..loader import parent as _parent
+                    st_ = c
+                    while not isinstance(st_, ast.stmt):
+                        st_ = _parent(st_)
+                    blk_owner = _parent(st_)
+                    leaves = False
+                    for fld in ("body", "orelse", "finalbody"):
+                        blk = getattr(blk_owner, fld, None)
+                        if isinstance(blk, list) and st_ in blk:
+                            rest = blk[blk.index(st_) + 1:]
+                            leaves = any(isinstance(r, (ast.Break, ast.Return, ast.Raise)) for r in rest) and not any(isinstance(r, (ast.For, ast.While, ast.If, ast.Try, ast.With)) for r in rest[: next((k for k, r in enumerate(rest) if isinstance(r, (ast.Break, ast.Return, ast.Raise))), 0)])
+                    if leaves:
+                        continue
+                    mutated = [s for s in body_nodes if isinstance(s, (ast.Assign, ast.AugAssign)) and any(isinstance(t, (ast.Attribute, ast.Subscript)) and isinstance(t.value, ast.Name) and t.value.id == v for t in (s.targets if isinstance(s, ast.Assign) else [s.target]))]
+                    mutated += [x for x in body_nodes if isinstance(x, ast.Call) and isinstance(x.func, ast.Attribute) and isinstance(x.func.value, ast.Name) and x.func.value.id == v and x.func.attr in ("decode", "from_primitive", "update", "append", "extend")]
+                    if not mutated:
+                        continue  # the same immutable/unchanged value appended repeatedly: not this rule's concern
+                    from ..loader import qualname
+                    fq = f"{mname}.{qualname(fn)}"
+                    rep.fail("fresh-per-element", fq, lp, f"`{v}` is created before the loop, filled in and appended inside it: every element of the list is the same object and ends up holding the values of the last iteration (with two or more elements the earlier ones are lost on the wire)", mod=m, node=c)
+    rep.counters["append-in-loop sites examined"] = n_sites
+    if n_sites < 10:
+        rep.defer(f"append-in-loop sites examined = {n_sites} < 10: the aliasing rule no longer sees the codec loops")
+    else:
+        rep.ok("fresh-per-element", f"{n_sites} append-in-loop sites", "each appended object is created per iteration")
+
+
+# ---- RQ / AC variant selection ---------------------------------------------------------------------
+def _abstract_test(t: ast.AST, name: str, value):
+    """evaluate a test over `name` for value in {None, b'', b'x'}; returns True/False or raises"""
+    if isinstance(t, ast.UnaryOp) and isinstance(t.op, ast.Not):
+        return not _abstract_test(t.operand, name, value)
+    if isinstance(t, ast.BoolOp):
+        vals = [_abstract_test(v, name, value) for v in t.values]
+        return all(vals) if isinstance(t.op, ast.And) else any(vals)
+    if isinstance(t, ast.Compare) and len(t.ops) == 1 and norm(t.left) == name:
+        c = t.comparators[0]
+        cv = c.value if isinstance(c, ast.Constant) else AnalysisError
+        if cv is AnalysisError:
+            raise AnalysisError(f"variant test compares {name} with a non-constant")
+        op = t.ops[0]
+        if isinstance(op, ast.Is):
+            return value is cv
+        if isinstance(op, ast.IsNot):
+            return value is not cv
+        if isinstance(op, ast.Eq):
+            return value == cv
+        if isinstance(op, ast.NotEq):
+            return value != cv
+    if norm(t) == name:
+        return bool(value)
+    if isinstance(t, ast.Call) and dotted(t.func) == "len" and len(t.args) == 1 and norm(t.args[0]) == name:
+        if value is None:
+            raise AnalysisError("len(None)")
+        return len(value)
+    if isinstance(t, ast.Call) and dotted(t.func) == "isinstance" and norm(t.args[0]) == name:
+        return value is not None
+    raise AnalysisError(f"variant test not modelled: {norm(t)[:60]}")
+
+
+def check_variant_selection(repo, rep):
+    """UserIdentityNegotiation is one primitive for two wire items: the -RQ item when no server
+    response is present and the -AC item otherwise. The -AC item's to_primitive writes the decoded
+    response bytes - which PS3.7 D.3.3.7 allows to be empty - so the selector must send every bytes
+    value (b'' included) to the -AC item and only None to the -RQ item."""
+    rep.rule("variant-selection", "UserIdentityNegotiation.from_primitive builds the -AC item for every bytes server_response (b'' included) and the -RQ item only for None")
+    pp = repo.mod("pdu_primitives")
+    ci = pp.classes.get("UserIdentityNegotiation")
+    if ci is None or "from_primitive" not in ci.methods:
+        rep.defer("pdu_primitives.UserIdentityNegotiation.from_primitive vanished")
+        return
+    fn = ci.methods["from_primitive"]
+    fq = "pdu_primitives.UserIdentityNegotiation.from_primitive"
+    sel = None
+    for i in body_nodoc(fn):
+        if isinstance(i, ast.If):
+            made_body = {norm(c.func) for s in i.body for c in ast.walk(s) if isinstance(c, ast.Call) and isinstance(c.func, ast.Name) and c.func.id.startswith("UserIdentitySubItem")}
+            made_else = {norm(c.func) for s in i.orelse for c in ast.walk(s) if isinstance(c, ast.Call) and isinstance(c.func, ast.Name) and c.func.id.startswith("UserIdentitySubItem")}
+            if made_body and made_else and made_body != made_else:
+                sel = (i, made_body, made_else)
+    if sel is None:
+        rep.defer(f"{fq}: the RQ/AC selector was not recognised")
+        return
+    i, mb, me = sel
+    try:
+        res = {repr(v): _abstract_test(i.test, "self.server_response", v) for v in (None, b"", b"x")}
+    except AnalysisError as exc:
+        rep.defer(f"{fq}: {exc}")
+        return
+    body_is_rq = mb == {"UserIdentitySubItemRQ"}
+    want = {"None": body_is_rq, "b''": not body_is_rq, "b'x'": not body_is_rq}
+    got = {k: bool(v) for k, v in res.items()}
+    rep.check(got == want, "variant-selection", fq, i.test, f"selector `{norm(i.test)}` is {got} over server_response in (None, b'', b'x'); it must be {want}: a zero-length server response (the positive response for identity types 1 and 2, PS3.7 Table D.3-15) is otherwise turned into an -RQ item", mod=pp, node=i)
+    # the inverse direction: the AC item hands its (possibly empty) response bytes to the primitive
+    it = repo.mod("pdu_items").classes.get("UserIdentitySubItemAC")
+    tp = it.methods.get("to_primitive") if it is not None else None
+    ok = tp is not None and any(isinstance(s, ast.Assign) and norm(s.targets[0]).endswith(".server_response") and norm(s.value) == "self.server_response" for s in walk_no_nested(tp))
+    rep.check(ok, "variant-selection", "pdu_items.UserIdentitySubItemAC.to_primitive", "primitive.server_response = self.server_response", "the decoded response bytes (possibly empty) must reach the primitive unchanged", mod=repo.mod("pdu_items"), node=tp or it.node)
